@@ -369,6 +369,21 @@ class C12(Profile):
     never_off = ("restart", "refused", "create_block", "create_array", "create_section")
     fault_kinds = ("refused:*", "restart_rw", "restart_ro")
 
+    def evidence_extra(self, stats):
+        from .ops_refuse import CELL_KEYS, ACCEPTED_NOT_REFUSED
+        hit = {}
+        for k, v in stats.items():
+            if k.startswith("refused:"):
+                hit[k[8:]] = hit.get(k[8:], 0) + v
+        cells = ["%s:%s" % c for c in CELL_KEYS]
+        return {"catalogue_cells": len(cells),
+                "catalogue_cells_refused_at_least_once": sum(1 for c in cells if c in hit),
+                "catalogue_cells_never_instantiated": [c for c in cells if c not in hit
+                                                       and ("cell_accepted:" + c) not in stats],
+                "cells_accepted_not_refused_in_this_run": sorted(k[14:] for k in stats if k.startswith("cell_accepted:")),
+                "cells_excluded_because_accepted_by_design": {"%s:%s" % k: v for k, v in ACCEPTED_NOT_REFUSED.items()},
+                "retries_under_same_name": stats.get("retry_ok", 0)}
+
     def tune_knobs(self, k, rng):
         k["walk_every"] = P.pick(rng, [0, 5])
         k["max_blocks"] = rng.randint(1, 3)
@@ -546,6 +561,15 @@ class C18(Profile):
     build_fraction = 0.55
     fault_kinds = ("upgrade:interruptions", "upgrade:double_interruptions")
 
+    def evidence_extra(self, stats):
+        return {"upgrade_experiments": stats.get("upgrade:experiments", 0),
+                "interruption_points_enumerated": stats.get("upgrade:interruptions", 0),
+                "double_interruptions": stats.get("upgrade:double_interruptions", 0),
+                "noop_upgrades_checked_for_zero_writes": stats.get("upgrade:noop_reruns", 0) + stats.get("upgrade:uptodate_noop", 0),
+                "old_properties_converted": stats.get("upgrade:old_props", 0),
+                "alias_dimensions_converted": stats.get("upgrade:alias_dims", 0),
+                "per_value_extras_checked": stats.get("upgrade_extras_checked", 0)}
+
     def tune_knobs(self, k, rng):
         k["names"] = ["s", "t", "u", "a", "b", "p.q", "ünï", "x y"]
         k["dup_rate"] = 0.0
@@ -575,12 +599,12 @@ class C11(Profile):
     prop = "C11"
     name = "C11"
     level = "fault_enumeration"
-    weights = dict(ALL_MUTATING, ro_session=9, mode_check=5, restart=2)
+    weights = dict(ALL_MUTATING, ro_session=9, mode_check=5, restart=2, grid_cell=2)
     owned = ("ro_", "mode")
     reopen_introspect = False
     never_off = ("restart", "ro_session", "mode_check")
     fault_kinds = ("ro_session", "mode_check")
-    late_ops = ("ro_session", "mode_check")
+    late_ops = ("ro_session", "mode_check", "grid_cell")
     build_fraction = 0.35
 
     def tune_knobs(self, k, rng):
@@ -604,6 +628,30 @@ class C17(Profile):
     reopen_introspect = False
     never_off = ("crash",)
     fault_kinds = ("crash_after_flush", "crash_after_close")
+
+    def directed(self, tier, seed):
+        """real file + real SIGKILL cross-check of the simulated disk (see realdisk.py)."""
+        import json
+        import os
+        from . import realdisk, engine as E
+        n = 16 if tier == "quick" else 400
+        r = realdisk.crosscheck(self, seed, n)
+        if r["problems"]:
+            return {"error": "real-disk cross-check could not run: %r" % (r["problems"][:3],)}
+        direct = []
+        for sd, res in r["violations"][:3]:
+            os.makedirs(E.REPLAYS, exist_ok=True)
+            path = os.path.join(E.REPLAYS, "C17-realdisk-%d.json" % sd)
+            sig = "realdisk_crash_recovery|%s" % res["violation"]
+            json.dump({"property": "C17", "profile": self.name, "realdisk": True, "seed": sd, "how": "flush",
+                       "expected_signature": sig, "message": res["msg"], "ops": res["ops"]}, open(path, "w"),
+                      indent=1, default=E._json_default)
+            direct.append((path, "real file + SIGKILL after flush: " + res["msg"]))
+        return {"evaluations": r["done"], "direct_violations": direct,
+                "coverage": {"real_disk_crosschecks": r["done"], "real_disk_skipped": r["skipped"],
+                             "distinct_nontrivial": 0,
+                             "what": "same generated histories executed in a forked child on a real file (sec2 "
+                                     "driver), flush()/close(), child SIGKILLed, parent reopens RO and RW"}}
 
     def tune_knobs(self, k, rng):
         k["walk_every"] = 0
